@@ -403,7 +403,29 @@ def r08_9(prog: Program, rep):
            "match and had to be left untouched is destroyed", g.nodes[closes[0]].line)
 
 
+def r08_10(prog: Program, rep):
+    """Deleting a ref holds packed-refs.lock for the DECISION, not only for the rewrite: the test whether the name is packed is made
+    (again) under the lock.  A test made before the lock lets a concurrent pack_refs write the still-current value into packed-refs
+    between the test and the removal of the loose file - the deleted ref comes back."""
+    m = prog.module("dulwich/refs.py")
+    f = m.funcs.get("DiskRefsContainer._remove_packed_ref")
+    if f is None:
+        raise AnalysisError("DiskRefsContainer._remove_packed_ref not found")
+    g = cfg_of(prog, f)
+    acq = [i for i, n in g.nodes.items() for c in node_calls(n) if callee_name(c) == "GitFile"]
+    if not acq:
+        raise AnalysisError("_remove_packed_ref: acquisition of packed-refs.lock not found")
+    early = [i for i, n in g.nodes.items() if n.kind == "stmt" and isinstance(n.ast, ast.Return)]
+    r = reach(g, [g.entry], avoid=set(acq), include_srcs=True)
+    unlocked_returns = [i for i in early if i in r]
+    rep.ob("R08.10", m.rel, f.qual, "no 'not packed, nothing to do' decision is taken before packed-refs.lock is held", not unlocked_returns,
+           "`if name not in self.get_packed_refs(): return` runs without the lock: for a loose-only ref the deleter never takes packed-refs.lock, and a pack_refs "
+           "running between this test and the removal of the loose file writes the value into packed-refs - remove_if_equals returns True and the ref survives",
+           g.nodes[unlocked_returns[0]].line if unlocked_returns else f.node.lineno)
+
+
 def run(prog: Program, rep, tier="quick"):
+    rep.rule("R08.10", "the 'is it packed' decision of a ref deletion is taken under packed-refs.lock")
     rep.rule("R08.9", "locked_ref commits its lock file only when something was written (no empty file over the ref after a failed comparison)")
     rep.rule("R08.1", "DEF-INSIDE: ref values feeding a test inside a ref's lock region are read inside that region")
     rep.rule("R08.2", "loose ref files are removed only under that ref's own lock; packed-refs is written under its lock "
@@ -418,6 +440,7 @@ def run(prog: Program, rep, tier="quick"):
     r08_2(prog, rep)
     r08_3(prog, rep)
     r08_9(prog, rep)
+    r08_10(prog, rep)
     r08_4(prog, rep)
     # R08.5: the per-process packed-refs cache that the conditional operations re-read under the lock is keyed to the
     # file it was actually parsed from (same engine as R14.4)
